@@ -519,15 +519,114 @@ def sig_replacement_precedence_lost(mods, case) -> bool:
     return bool(v) and v[1] != v[0] and v[2] == v[0]
 
 
+SPLITLINES_EXTRA = re.compile("[\x0b\x0c\x1c\x1d\x1e\x85\u2028\u2029]|\r(?!\n)")
+
+
+def _expected(mods, case):
+    return expected_applied(all_matches(mods, case["pattern"], case["source"]), case["source"], case["count"])
+
+
+def sig_line_separator_in_source(mods, case) -> bool:
+    """The source has a character at which str.splitlines splits but which is no line end for python
+    (form feed, U+2028, \x1c-\x1e, \x85, \v) or a lone carriage return: every line-based step
+    (has_ignore_comment, indentation of the matched line, rstrip per line) sees other lines."""
+    return bool(SPLITLINES_EXTRA.search(case["source"]))
+
+
+def sig_ignore_text_in_string(mods, case) -> bool:
+    """The ignore regex matches text of the source that is not a comment (inside a string literal) on a
+    line that an expected match touches."""
+    src = case["source"]
+    real = set(ignore_line_ranges(src))
+    for (a, b, t) in physical_lines(src):
+        if IGNORE_RE.search(t) and (a, b) not in real:
+            return True
+    # a string token spanning several lines whose content matches
+    return any(IGNORE_RE.search(src[a:b]) for (a, b) in regex_ignore_line_ranges(src) if (a, b) not in real)
+
+
+def sig_string_line_trailing_blank(mods, case) -> bool:
+    """A string literal of the source spans several lines and one of its inner lines ends in blanks
+    (they are stripped when the original spelling of the literal is put back)."""
+    try:
+        toks = list(tokenize.generate_tokens(io.StringIO(case["source"]).readline))
+    except (tokenize.TokenError, SyntaxError, IndentationError):
+        return False
+    for t in toks:
+        if t.type == tokenize.STRING and t.start[0] != t.end[0]:
+            if any(l != l.rstrip(" \t") for l in t.string.split("\n")[:-1]):
+                return True
+    return False
+
+
+def sig_fstring_debug_specifier(mods, case) -> bool:
+    """An expected match is the expression of a self-documenting f-string field, f'{x=}'."""
+    src = case["source"]
+    for (rng, _, _) in _expected(mods, case):
+        if re.match(r"\s*=\s*[}!:]", src[rng[1]:]) and src[:rng[0]].rstrip().endswith("{"):
+            return True
+    return False
+
+
+def sig_elif_clause_matched(mods, case) -> bool:
+    """An expected match is the nested If of an `elif` clause: its range starts at the keyword elif."""
+    src = case["source"]
+    return any(src[rng[0]:rng[0] + 4] == "elif" for (rng, _, _) in _expected(mods, case))
+
+
+def sig_statement_shares_line(mods, case) -> bool:
+    """An expected STATEMENT match shares its physical line with other code: a block header in front of
+    it (one-line body) or `;`-separated neighbours."""
+    src = case["source"]
+    lines = physical_lines(src)
+    for (rng, _, groups) in _expected(mods, case):
+        root = groups_dict(groups).get("root")
+        if isinstance(root, ast.expr):
+            continue
+        first = next(l for l in lines if l[0] <= rng[0] < l[1] or (rng[0] == l[1] == len(src)))
+        last = next(l for l in lines if l[0] < rng[1] <= l[1])
+        before = src[first[0]:rng[0]]
+        after = src[rng[1]:last[1]].strip()
+        if before.strip() or (after and not after.startswith("#")):
+            return True
+    return False
+
+
+def sig_comment_ends_replacement(mods, case) -> bool:
+    """The replacement template ends in a comment and the source line goes on after an expected match."""
+    src, repl = case["source"], case["repl"]
+    last = repl.split("\n")[-1]
+    try:
+        has_comment = any(t.type == tokenize.COMMENT for t in tokenize.generate_tokens(io.StringIO(last).readline))
+    except (tokenize.TokenError, SyntaxError, IndentationError):
+        has_comment = "#" in last
+    if not has_comment:
+        return False
+    lines = physical_lines(src)
+    for (rng, _, _) in _expected(mods, case):
+        last_line = next(l for l in lines if l[0] < rng[1] <= l[1])
+        if src[rng[1]:last_line[1]].strip():
+            return True
+    return False
+
+
 SIGS = {"binding_precedence_lost": sig_binding_precedence_lost,
-        "replacement_precedence_lost": sig_replacement_precedence_lost}
-SITES = {SITE_FORMAT, "processing.find_replace"}
+        "replacement_precedence_lost": sig_replacement_precedence_lost,
+        "line_separator_in_source": sig_line_separator_in_source,
+        "ignore_text_in_string": sig_ignore_text_in_string,
+        "string_line_trailing_blank": sig_string_line_trailing_blank,
+        "fstring_debug_specifier": sig_fstring_debug_specifier,
+        "elif_clause_matched": sig_elif_clause_matched,
+        "statement_shares_line": sig_statement_shares_line,
+        "comment_ends_replacement": sig_comment_ends_replacement}
+SITES = {SITE_FORMAT, "processing.find_replace", "core.has_ignore_comment", "processing._do_rewrite"}
+EXPLAINABLE = {"tree", "self-substitution", "ignore", "untouched-lines"}
 
 
 def match_finding(mods, findings, case, probs):
-    """A failing case is suppressed only by a listed finding whose site and predicate both hold; only
-    the tree / self-substitution clauses can be explained by a textual-instantiation finding."""
-    if any(p["clause"] not in ("tree", "self-substitution") for p in probs):
+    """A failing case is suppressed only by a listed finding whose site and predicate both hold; a crash,
+    a wrong count, a changed text where there is no match are never explained."""
+    if any(p["clause"] not in EXPLAINABLE for p in probs):
         return None
     for f in findings:
         if f.kind != "finding" or f.fields.get("site") not in SITES:
@@ -788,6 +887,7 @@ STRING_SOURCES = [
     "x = f('\\x41\\u00e9')\n",
     "a = '\\\\n'\nb = x\n",
     "x = \'\'\'a \nb\'\'\'\n",                  # multi-line string, trailing blank inside
+    "x = \'\'\'a\nb\'\'\'\ny = 1\n",
     "if c:\n    x = \"\"\"a\n  b\n\"\"\"\n",
     's = f"abc{x}"\n',                     # f-strings
     "s = f'abc{x}' + 'abc'\n",
@@ -949,7 +1049,7 @@ def g_subn_case(case, ms, rec) -> str:
     pat, repl, source, count = case
     yielded = dict(rec["items"]) if not rec["error"] else {}
     matches = glist([f"({g_range(rng)}, {g_binds(b)}, "
-                     f"{glist([i for i in string_literal_lines(yielded.get(rng, '')) if i > 0])})"
+                     f"{glist([f'{i}%nat' for i in string_literal_lines(yielded.get(rng, '')) if i > 0])})"
                      for (rng, b, _) in ms])
     valid = glist([f"({gtext(t)}, {gbool(v)})" for t, v in rec["valid"].items()])
     if rec["error"]:
@@ -1228,6 +1328,14 @@ WITNESSES = {
     "F14-1": [("f({{x}})", "{{x}} * 2", "y = f(1 + 2)", 0),
               ("{{a}} * {{b}}", "{{a}} * {{b}}", "y = (1 + 2) * 3", 0)],
     "F14-2": [("f({{x}})", "{{x}} - {{x}}", "y = f(u) * 2\n", 0)],
+    "F14-6": [("x = 1", "x = 2\ny = 3", "if c: x = 1\n", 0)],
+    "F14-7": [("f()", "g()  # c", "y = f() + 1\n", 0)],
+    "F14-8": [("x", "y", "f'{x=}'\n", 0)],
+    "F14-9": [("if {{c}}:\n    {{b}}", "if not {{c}}:\n    {{b}}", "if a:\n    p()\nelif b:\n    q()\n", 0)],
+    "F14-17": [("x = 1", "x = 2", "x = 1 \x0c # pyrefact: ignore\n", 0),
+               ("x = 1", "x = 2\ny = 3", "if c:\r    x = 1\r", 0)],
+    "F14-18": [("f()", "g()", "s = \'\'\'\n# pyrefact: ignore\'\'\'; f()\n", 0)],
+    "F14-19": [("x = {{a}}", "y = {{a}}", "x = \'\'\'a \nb\'\'\'\n", 0)],
 }
 
 
@@ -1488,6 +1596,7 @@ def check(run: common.Run):
                 seen_nomatch.add(key)
             yield c
     cases += list(prune(fixed_family(with_comments=True)))
+    cases += list(prune(dict.fromkeys(hunt_family())))
     n_fixed = len(cases) - n_corpus
     gen = Gen(rnd)
     n_rand = 1500 if quick else 40000
@@ -1579,7 +1688,8 @@ def check(run: common.Run):
         edis += [k + i for i in idx]
 
     # ---------------- deterministic sweep: the property oracle on the fixed family + corpus ---------
-    sweep = [c for (_, c) in corpus] + list(prune(fixed_family())) + minws_cases
+    sweep = [c for (_, c) in corpus] + list(prune(fixed_family())) + list(prune(dict.fromkeys(hunt_family()))) \
+        + minws_cases
     sweep = list(dict.fromkeys(sweep))
     sweep_fail, by_finding = [], {}
     for c in sweep:
